@@ -1,10 +1,11 @@
 """C08 — JSONPath evaluation returns exactly the items the path denotes."""
 from .. import gen
-from . import common, longpaths
+from . import common, longpaths, pyjsonpath, sizes
 
 SPEC_THEOREM = ('Props/C08: the evaluator never panics on parser-producible paths; selection = PathSem semantics on the decoded tree; '
                 'C08_bytes_*: the offset-faithful selector (SelWalk.v: byte positions, no decoding) on enc v = the tree evaluator on normalise v')
 TRUSTED = ['Coq 8.16.1 kernel', 'translator', 'extraction + OCaml driver', 'Rust harness (paths are handed over as ASTs, no parser on the way)',
+           'independent JSONPath evaluator in Python (props/pyjsonpath.py, written from the property text and the README operator table only) as the oracle of the search',
            'model SelWalk.v: selector.rs on byte positions (tied to the code by correspondence, corrupt buffers included); PathSem.v is the same '
            'evaluator on the denoted sub-values and SelWalkProofs.v proves the two equal on every canonical encoding']
 ASSUMPTIONS = ['documents are canonical encodings of well-formed values', 'cross-kind comparisons follow the derived variant order of PathValue (the README is silent)']
@@ -33,6 +34,29 @@ def generate(ctx):
             kinds = [s[0] for s in p.split(';')]
             for a, b in zip(kinds, kinds[1:]):
                 ctx.count('step_pairs', a + b)
+    # first / middle / last index and name, wildcards and a filter deciding on the last member, on containers of 255 .. 1000 members
+    # and on documents with strings / keys of 255 .. 65536 bytes (sizes.py; second review H2); judged by the independent evaluator
+    for lab, v in sizes.string_docs() + sizes.container_docs():
+        if v[0] not in 'ao':
+            continue
+        e = gen.hexarg(gen.enc(v))
+        n = len(v[1])
+        if v[0] == 'a':
+            ps = ['R;I(x%d)' % i for i in (0, n // 2, n - 1, n)] + ['R;I(l0)', 'R;I(l-1,x0,l0)', 'R;I(Sl-1~l5)', 'R;I(Sx%d~x%d)' % (n - 2, n + 3), 'R;B']
+            last = v[1][-1]
+            if last[0] in 'sui':
+                ps.append('R;B;Fbeq(p(C)|%s)' % common.expr_text(('v', last)))
+                ps.append('Pbeq(p(R;I(l0))|%s)' % common.expr_text(('v', last)))
+        else:
+            ks = [k for _, (k, _) in sizes.first_mid_last(v)]
+            ps = ['R;%s%s' % (c, k.hex()) for c, k in zip('DKO', ks)] + ['R;D%s' % (ks[-1] + b'x').hex(), 'R;W', 'R;W;Fe(C)', 'Pe(R;O%s)' % ks[-1].hex()]
+            last = v[1][-1][1]
+            if last[0] in 'sui':
+                ps.append('R;W;Fbeq(p(C)|%s)' % common.expr_text(('v', last)))
+        for p in ps:
+            ctx.add('select %s %s %s' % (e, p, 'all' if not lab.startswith(('obj1000', 'arr1000')) else r.choice(['all', 'array'])), meta=('sel', v, p))
+        ctx.add('sel_exists %s %s' % (e, ps[2]))
+        ctx.add('get_by_path_first %s %s' % (e, ps[1]))
     # long chains of && / ||, deep parentheses, nested exists(), filters inside filters: the evaluators of the model recurse on
     # the structure of the expression (no fuel); the crate must agree however long the expression is
     ldocs = [v for v in ds if len(gen.enc(v)) <= 200][:40]
@@ -79,6 +103,31 @@ def generate(ctx):
                             kind='malformed')
 
 
+def split_items(o):
+    """'ok <hex> <offsets>' -> list of item byte strings (None when the offsets do not delimit the data)"""
+    f = o[3:].split(' ')
+    data = gen.unhexarg(f[0])
+    offs = [int(x) for x in f[1].split(',')] if len(f) > 1 and f[1] else []
+    out, prev = [], 0
+    for x in offs:
+        out.append(data[prev:x])
+        prev = x
+    return (out, data) if prev == len(data) or not offs else (None, data)
+
+
+def expected_by_oracle(v, p, mode):
+    """the encoded items the property text requires of `select v p mode` (independent evaluator), or raises Unjudged"""
+    ps = pyjsonpath.parse_path_text(p)
+    want = pyjsonpath.select_all(v, ps)
+    if ps[0][0] == 'P':
+        return [gen.enc(want[0])], True          # one boolean in every mode, no offset reported
+    if mode == 'first':
+        want = want[:1]
+    elif mode == 'array' or (mode == 'mixed' and len(want) >= 2):
+        want = [('a', want)]
+    return [gen.enc(x) for x in want], False
+
+
 def judge(ctx):
     for c in ctx.cases:
         if c.kind == 'malformed':
@@ -86,3 +135,37 @@ def judge(ctx):
         o = ctx.impl.get(c.id, 'missing')
         if o == 'panic' or o.startswith('abort'):
             ctx.violate('path evaluation panics', case=c.line, observed=o)
+            continue
+        m = c.meta
+        if not m or m[0] != 'sel':
+            continue
+        # the ORACLE of this property: an evaluator written from the documentation alone decides which items the path denotes
+        _, v, p = m
+        mode = c.line.rsplit(' ', 1)[1]
+        try:
+            want, is_pred = expected_by_oracle(v, p, mode)
+        except pyjsonpath.Unjudged as u:
+            ctx.count('oracle_not_judged (the documentation does not define it)', str(u))
+            continue
+        ctx.count('oracle_judged', mode)
+        if not o.startswith('ok '):
+            ctx.violate('selection fails where the documented meaning of the path gives a result', case=c.line, doc=gen.vtext(v)[:400], path=p[:400],
+                        expected=[x.hex() for x in want][:8], observed=o[:300])
+            continue
+        items, data = split_items(o)
+        if is_pred:
+            items = [data]
+        if items != want:
+            def show(bs):
+                out = []
+                for b in (bs or [])[:8]:
+                    try:
+                        out.append(gen.vtext(gen.dec(b))[:120])
+                    except gen.DecodeError:
+                        out.append('undecodable:' + b.hex()[:80])
+                return out
+            ctx.violate('the selected items are not the items the path denotes (independent evaluator written from the documentation)',
+                        case=c.line[:600], doc=gen.vtext(v)[:400], path=p[:400], mode=mode, expected=show(want), observed=show(items),
+                        n_expected=len(want), n_observed=len(items or []))
+        elif want:
+            ctx.count('oracle_agreed_nonempty', mode)
